@@ -38,7 +38,7 @@ ASSUMPTIONS = [
     "with octet stuffing a lone trailing escape octet before a flag is dropped by un-stuffing",
 ]
 MUST_FIRE = {
-    "quick": ["valid_frames", "invalid_bad_fcs_good_len", "invalid_good_fcs_bad_len", "len_rewrite_good_fcs", "hcs_rewrite_good_fcs", "hdr_only", "noise_overlong"],
+    "quick": ["valid_frames", "invalid_bad_fcs_good_len", "invalid_good_fcs_bad_len", "len_rewrite_good_fcs", "hcs_rewrite_good_fcs", "hdr_only", "noise_overlong", "headers_kept_frames_dropped"],
     "thorough": ["valid_frames", "invalid_bad_fcs_good_len", "invalid_good_fcs_bad_len", "len_rewrite_good_fcs", "hdr_only", "noise_overlong", "noise_abort_seq"],
 }
 
@@ -48,7 +48,10 @@ def gen(rng, tier, index):
     w = hdlc_wires.draw(rng, cfg)
     wire, _ = hdlc_wires.wire_of(w, cfg[0])
     hot = [i + 1 for i, b in enumerate(wire) if b in (0x7D, 0x7E)][:300]
-    yield {"cfg": list(cfg), "wire": w, "cuts": fragment.draw(rng, len(wire), hot)}
+    sc = {"cfg": list(cfg), "wire": w, "cuts": fragment.draw(rng, len(wire), hot)}
+    if rng.random() < 0.12:
+        sc["headers_only"] = True  # a caller that keeps frame.header of each frame and lets the frames go
+    yield sc
 
 
 def execute(sc):
@@ -72,6 +75,9 @@ def execute(sc):
 
     def bump(k):
         probes[k] = probes.get(k, 0) + 1
+
+    if fed.changed_later is not None:
+        add("R", "returned-list-changed-by-later-call", "the list returned by read() call #%d held %d frames when it was returned and %d after later calls: frames are handed over in stream order and no octet is used twice only if what a call returned stays what it was" % fed.changed_later)
 
     void = fed.error is not None
     frames = []
@@ -102,6 +108,25 @@ def execute(sc):
         idx = hdlc_oracle.embed_stuffed(wire, frames) if stuffing else hdlc_oracle.embed_unstuffed(wire, frames)
         if idx is not None:
             add("E", "frame-octets-not-from-wire-in-order", f"returned frame #{idx} ({frames[idx].hex()[:60]}) has no place between flags after the previous frames")
+    if sc.get("headers_only") and not void and not viol:
+        import gc
+
+        again = reader_rig.feed(reader_rig.make_reader("hdlc", (stuffing, abort)), wire, sc["cuts"])
+        if again.error is None:
+            kept = [(m.as_bytes, m.header) for m in again.messages if m.is_valid]
+            del again
+            gc.collect()
+            for n, (o, hdr) in enumerate(kept):
+                try:
+                    bad = hdlc_oracle.header_mismatches(hdr, o)
+                except Exception as ex:  # noqa: BLE001
+                    add("H", f"header-accessor-raised-after-frame-was-dropped {type(ex).__name__}", f"valid frame #{n} {o.hex()[:60]}: the caller kept frame.header only; accessor raised {ex!r}")
+                    break
+                if bad:
+                    add("H", f"header-field-wrong-after-frame-was-dropped {bad[0][0]}", f"valid frame #{n} {o.hex()[:60]}: {bad}")
+                    break
+            if kept:
+                bump("headers_kept_frames_dropped")
     for k, v in fired.items():
         probes[k] = probes.get(k, 0) + v
     probes[f"cfg_{int(stuffing)}{int(abort)}"] = 1
@@ -125,12 +150,14 @@ def summarise(sc):
 
 
 def candidates(sc):
+    for simpler in fragment.simpler(sc["cuts"]):
+        yield dict(copy.deepcopy(sc), cuts=simpler)
     stuffing = sc["cfg"][0]
     if sc["cuts"]["m"] == "list":
         for red in shrink.list_reductions(sc["cuts"]["at"]):
-            yield dict(copy.deepcopy(sc), cuts={"m": "list", "at": red} if red else {"m": "whole"})
+            yield dict(copy.deepcopy(sc), cuts=fragment.keep(sc["cuts"], {"m": "list", "at": red} if red else {"m": "whole"}))
     elif sc["cuts"]["m"] == "fixed":
-        yield dict(copy.deepcopy(sc), cuts={"m": "whole"})
+        yield dict(copy.deepcopy(sc), cuts=fragment.keep(sc["cuts"], {"m": "whole"}))
     for w in hdlc_wires.shrink_candidates(sc["wire"], stuffing):
         yield dict(copy.deepcopy(sc), wire=w)
     for cfg in ([False, False], [True, False], [False, True]):
